@@ -3,6 +3,7 @@ package simkit
 import (
 	"fmt"
 	"hash/fnv"
+	"os"
 	"sort"
 	"time"
 )
@@ -49,6 +50,14 @@ type Run struct {
 }
 
 func newRun(prop, tier string, tape *Tape, seed, idx uint64) *Run {
+	r := newRun0(prop, tier, tape, seed, idx)
+	if os.Getenv("VERIF_DUMP_TRACE") != "" {
+		r.maxTrace = 1 << 20
+	}
+	return r
+}
+
+func newRun0(prop, tier string, tape *Tape, seed, idx uint64) *Run {
 	return &Run{
 		Property: prop, Tier: tier, Tape: tape, Seed: seed, Index: idx,
 		Faults: map[string]int{}, Probes: map[string]int{}, Config: map[string]any{},
